@@ -387,6 +387,9 @@ def reward_formula(val, U, m):
         want = mk_add(a, mk_mul(U, mk_add(C(1.0), negate(a))))
         want2 = mk_add(a, mk_mul(U, mk_add(C(1), negate(a))))
         if arg in (want, want2):
+            if a[0] == "div":
+                return ("the offset is computed as 1/2**(max_reward+1): the power overflows (OverflowError) for max_reward >= 1023, "
+                        "a value check_input accepts - use 2.0**-(max_reward+1), which underflows to 0.0 instead")
             return True
         if arg == mk_add(a, U):
             return "the uniform draw is not scaled by (1 - a): the log argument ranges over [a, 1+a) and exceeds 1, so the reward can be -1"
